@@ -67,6 +67,30 @@ T = {
          "same monotonic clock as golib; low-entropy sources that never offer an accepted index excluded"),
 }
 
+# second-pass workloads (harness/LESSONS.md): appended to the level text
+EXTRA = {
+ "C01": " Also: requested capacities around every power of two up to 2^20 (also under GOMAXPROCS 3/5/7), element types other than int (nil interface values, nil pointers, zero-size, multi-word), and honest runs of 2^32 push/pop pairs (thorough; in the quick tier when the seek does not understand the ring's layout).",
+ "C02": " Also: unobserved-operation windows, kept All() sequences run later and twice, comparators returning differences/huge magnitudes, private lists on parallel goroutines, cold-start child processes.",
+ "C03": " Also: unobserved-operation windows, kept All() sequences, two live iterators, several dense buckets converted up and down on parallel workers, cold-start child processes.",
+ "C04": " Also: unobserved-operation windows on handles, chains of Init on non-empty heaps with old handles, kept/nested/panicking PopAll, heaps of 4095..131073 elements.",
+ "C05": " Also: two tries used alternately with kept and scribbled results and rebuilds, overlong/near-valid encodings, fan-out above 256, >65536-node tries, patterns and keys above 65535 bytes.",
+ "C06": " Also: staged Insert/Build with the same call before and after each rebuild, tries differing in one pattern used alternately on reused text buffers, invalid-byte patterns, long patterns/texts/fan-out, cold-start child processes.",
+ "C07": " Also: argument arenas overwritten after each call with every result kept and re-read, inputs of 16 B..256 KiB beside every power of two, cold-start child processes per entry point.",
+ "C08": " Also: dst/src as regions of one arena, key/iv buffers reused in place, MiB-sized messages in place, cold-start child processes (decrypt before any encrypt).",
+ "C09": " Also: arguments lying back to back in one caller buffer, secret buffers overwritten in place between uninterrupted calls, MiB-sized messages, inputs unchanged after Decrypt, cold-start child processes.",
+ "C10": " Also: unobserved-operation windows, requested capacities around every power of two up to 2^20 (also under GOMAXPROCS 3/5/7), element types other than int, cold-start child processes.",
+ "C11": "",
+ "C12": " Also: multi-hundred-key writes against whole-map snapshots, kept All() sequences, scribbled Keys/Values results, maps of 1100..4200 keys emptied by bulk Delete next to single-writer keys (conservation oracle).",
+ "C13": " Also: unobserved-operation windows (incl. never-observed zero values), kept All() sequences run twice/nested/pulled alternately/with panicking yield, lists of 2^k-1..2^k+1 nodes up to 65537.",
+ "C14": " Also: capacity-limited self-aliased arguments, arguments scribbled after the call, NaN/-0 elements, the same buffers call after call with kept results, operands up to 70001 elements, FlexSlice windows and capacities around 2^12..2^17.",
+ "C15": " Also: uninterrupted call histories changing one ingredient at a time with all results kept, faulty/partly consumed/panicking readers followed by healthy ones, inputs up to 4 MiB, cold-start child processes per entry point.",
+ "C16": " Also: unobserved-operation windows with permuted first observer, kept All() sequences, sets of 15..65537 words, callbacks that read/edit/panic, recovered unallocatable Add.",
+ "C17": " Also: strings sharing one arena with kept results, panicking/re-entrant RemoveRunes predicates, strings up to 1.5 MiB with runes across power-of-two offsets, 97 KB identifiers, cold-start child processes.",
+ "C18": " Also: weights/values/limits up to MaxInt with a saturating oracle, one Graph value grown and re-initialised with kept results, serial sessions on one caller buffer with panicking and re-entrant callbacks, 65..300 items and graphs of 65..4100 vertices, labels that print alike.",
+ "C19": " Also: limiters reused over many batches with timed Wait, two limiters with blocking handlers, Goexit and nil/hostile panic values, surplus submissions while the bound is tight.",
+ "C20": " Also: AddRule windows with permuted first observer, kept results, failing/short crypto/rand readers then healthy ones, n and character sets up to 2^20/2^18, cold-start and reconfigured-default child processes.",
+}
+
 built = sorted(p for p in T if os.path.isdir(os.path.join(V, "harness", "cmd", p.lower())))
 checks = []
 for p in built:
@@ -78,7 +102,7 @@ for p in built:
         "evidence_file": f"/verif/evidence/{p}.json",
         "replay_cmd_template": f"./check {p} --replay {{path}}",
         "engine": f"harness/cmd/{p.lower()}",
-        "level_claimed": {"category": "exploration", "text": text, "design_ref": f"DESIGN.md section 3, {p}"},
+        "level_claimed": {"category": "exploration", "text": text + EXTRA.get(p, ""), "design_ref": f"DESIGN.md section 3, {p}"},
         "level_note": note,
         "technique": "runtime monitoring: " + tech,
     })
@@ -88,7 +112,7 @@ m = {
  "setup_cmd": "./setup.sh",
  "hooks": {
    "guard": "verif",
-   "enable": "no hook is committed to /repo: at check time ./check copies the working tree to a scratch directory and redirects the import paths sync/atomic, sync and runtime of ringz, listz and mapz to same-API shims of the harness module (harness/cmd/instrument); the tag 'verif' is reserved for harness-side files only",
+   "enable": "no hook is committed to /repo: at check time ./check copies the working tree to a scratch directory and redirects the import paths sync/atomic, sync and runtime of ringz, listz and mapz (and of the golib packages they import) to same-API shims of the harness module (harness/cmd/instrument); the tag 'verif' is reserved for harness-side files only",
    "baseline_off_cmd": "cd /repo && GOFLAGS=-mod=mod GOPROXY=off GOSUMDB=off GOTOOLCHAIN=local go test -vet=off -count=1 -timeout 25m ./...",
    "source_commits": [],
    "add_only": True,
